@@ -1,13 +1,13 @@
 (* Entry points of the extracted runner: [dispatch] evaluates the model on a
    case, [judge] compares with what the implementation did. *)
-From WP Require Import Base.Prelude Run.Sx Run.RunCbor Run.RunDet Run.RunMice Run.RunSH Run.RunSxg Run.RunCC Run.RunBundle Run.RunSig Run.RunFault Run.RunConc Run.RunMem.
+From WP Require Import Base.Prelude Run.Sx Run.RunCbor Run.RunDet Run.RunMice Run.RunSH Run.RunSxg Run.RunCC Run.RunBundle Run.RunSig Run.RunFault Run.RunConc Run.RunMem Run.RunCli.
 Open Scope N_scope.
 
 Definition first_some {A} (l : list (option A)) : option A :=
   fold_right (fun o acc => match o with Some a => Some a | None => acc end) None l.
 
 Definition dispatch1 (op : bytes) (args : list sx) : option sx :=
-  first_some [dispatch_cbor op args; dispatch_det op args; dispatch_mice op args; dispatch_sh op args; dispatch_sxg op args; dispatch_cc op args; dispatch_bundle op args; dispatch_sig op args; dispatch_fault op args; dispatch_mem op args].
+  first_some [dispatch_cbor op args; dispatch_det op args; dispatch_mice op args; dispatch_sh op args; dispatch_sxg op args; dispatch_cc op args; dispatch_bundle op args; dispatch_sig op args; dispatch_fault op args; dispatch_mem op args; dispatch_cli op args].
 
 Definition dispatch_base (op : bytes) (args : list sx) : sx :=
   match dispatch1 op args with Some r => r | None => SL [sym "unknown_op"] end.
